@@ -1099,7 +1099,8 @@ def free_monitor(lines, impl):
     if any(o in ('crash', 'missing') for o in impl):
         i = next(i for i, o in enumerate(impl) if o in ('crash', 'missing'))
         return [('C05', 'the implementation crashed (std::terminate / fatal signal) at line %d `%s`' % (i, lines[i].split()[0] + ' …')
-                 + ': a job body that throws must be a Call like any other, the executor survives')]
+                 + ': a throwing job body must be swallowed (a Call like any other, the executor survives) and a job owns its functor '
+                   '(nothing the client does to its own object afterwards may reach it)')]
     cfg = {}
     prev = {'inv': [], 'ran': [], 'jobs': [], 'sub': [], 'lc': 0, 'lf': 0}
     named = {}         # j -> tag the client's functor f<j> owns now
